@@ -204,7 +204,113 @@ def blotter_case(item):
     return ("ok", viols[:4], n, differ)
 
 
+def events_case(item):
+    """tables on their own stamps that fall between bars: target weights / signals stamped later in
+    the day than the bar, close and roll dates on a week-end.  Entries stamped after t (changed,
+    moved later, or removed) never change what is recorded up to t"""
+    bt = rt.bt()
+    A = bt.algos
+    kind, pert = item
+    if kind in ("target_intraday", "where_intraday"):
+        days = pd.bdate_range("2020-01-06", periods=6)
+        idx = pd.DatetimeIndex([d + pd.Timedelta(hours=h) for d in days for h in (10, 15)])
+    else:
+        idx = pd.bdate_range("2020-01-06", periods=12)
+    n = len(idx)
+    data = pd.DataFrame({"a": [8.0 + (i * 3) % 5 for i in range(n)], "b": [4.0 + (i * 5) % 3 for i in range(n)], "d": [6.0 + (i * 2) % 7 for i in range(n)]}, index=idx, dtype=float)
+
+    def tables(p):
+        """p = None (base) or (cut, pert): the user's tables with the entries after the cut perturbed"""
+        cut = p[0] if p else None
+        if kind == "target_intraday":
+            # one row per day, stamped at the day's second bar or after the close
+            rows = {}
+            for k, d in enumerate(days):
+                stamp = d + pd.Timedelta(hours=15 if k % 2 == 0 else 18)
+                rows[stamp] = {"a": 0.125 * (1 + k % 3), "b": 0.25, "d": 0.125 * (k % 2)}
+            t = pd.DataFrame(rows).T
+        elif kind == "where_intraday":
+            rows = {}
+            for k, d in enumerate(days):
+                stamp = d + pd.Timedelta(hours=15 if k % 2 == 0 else 18)
+                rows[stamp] = {"a": k % 3 != 0, "b": k % 2 == 0, "d": k % 3 != 1}
+            t = pd.DataFrame(rows).T.astype(bool)
+        elif kind == "close_between":
+            # close dates on a Saturday and a Sunday
+            t = pd.DataFrame({"date": [pd.Timestamp("2020-01-11"), pd.Timestamp("2020-01-19")]}, index=["a", "b"])
+        else:
+            t = pd.DataFrame({"date": [pd.Timestamp("2020-01-11"), pd.Timestamp("2020-01-18")], "target": ["d", "d"], "factor": [2.0, 0.5]}, index=["a", "b"])
+        if cut is None:
+            return t
+        if kind in ("target_intraday", "where_intraday"):
+            later = t.index > cut
+            if not later.any():
+                return None
+            if p[1] == "drop":
+                return t[~later]
+            t = t.copy()
+            if kind == "target_intraday":
+                t.loc[later, :] = t.loc[later, :].values[:, ::-1] * 0.5
+            else:
+                t.loc[later, :] = ~t.loc[later, :]
+            return t
+        later = t["date"] > cut
+        if not later.any():
+            return None
+        t = t.copy()
+        if p[1] == "drop":
+            return t[~later]
+        t.loc[later, "date"] = t.loc[later, "date"] + pd.Timedelta(days=3)
+        if "factor" in t.columns:
+            t.loc[later, "factor"] = t.loc[later, "factor"] * 3.0
+        return t
+
+    def run_one(t):
+        if kind == "target_intraday":
+            st = [A.WeighTarget("tab"), A.Rebalance()]
+        elif kind == "where_intraday":
+            st = [A.SelectAll(), A.SelectWhere("tab"), A.WeighEqually(), A.Rebalance()]
+        elif kind == "close_between":
+            st = [A.ClosePositionsAfterDates("tab"), A.RunOnce(), A.SelectThese(["a", "b"]), A.WeighEqually(), A.Rebalance()]
+        else:
+            st = [A.RollPositionsAfterDates("tab"), A.RunOnce(), A.SelectThese(["a", "b"]), A.WeighEqually(), A.Rebalance()]
+        s = bt.Strategy("r", st, [bt.Security("a"), bt.Security("b"), bt.Security("d")])
+        b = bt.Backtest(s, data, initial_capital=4096.0, integer_positions=False, progress_bar=False, additional_data={"tab": t})
+        b.run()
+        return b
+
+    viols = []
+    n_runs = differ = 0
+    try:
+        b0 = run_one(tables(None))
+    except Exception as e:
+        return ("ok", [{"rule": "crash", "expected": "the base run over a well-formed table completes", "observed": rt.describe(e), "where": {"cut": -1}}], 0, 0)
+    full0 = json.dumps(R.run_histories(b0), sort_keys=True, default=str)
+    for ci in range(len(idx)):
+        cut = idx[ci]
+        t = tables((cut, pert))
+        if t is None:
+            continue
+        try:
+            b1 = run_one(t)
+        except Exception as e:
+            if rt.classify(e) == "guard":
+                continue
+            viols.append({"rule": "crash", "observed": rt.describe(e), "where": {"cut": ci}})
+            continue
+        n_runs += 1
+        if json.dumps(R.run_histories(b1), sort_keys=True, default=str) != full0:
+            differ += 1
+        d = compare(histories_upto(b0, cut), histories_upto(b1, cut))
+        if d is not None:
+            key, x, y = d
+            viols.append({"rule": "past_depends_on_future", "expected": {"cut": str(cut), "table": "%s: entries stamped after the cut: %s" % (kind, pert), "series": list(key), "value": x}, "observed": y, "where": {"cut": ci}})
+    return ("ok", viols[:4], n_runs, differ)
+
+
 def replay(c):
+    if c.get("kind") == "events":
+        return events_case(tuple(c["item"]))[1]
     if c.get("kind") == "blotter":
         return blotter_case(tuple(c["item"]))[1]
     return case((c["spec"], [c["where"]["cut"]], [tuple(c["where"]["kind"][:1]) + tuple(tuple(x) if isinstance(x, list) else x for x in c["where"]["kind"][1:])]))[1]
@@ -232,7 +338,7 @@ def specs(tier, seed):
 
 
 def run(ctx):
-    ctx.rule = "strategies of the run family x cut dates x perturbations (affine rescale, reversal of the future rows, column rotation; thorough: every single future cell of the 6-date tables) applied to every supplied table after the cut; transaction / RFQ tables (bar, intraday and after-the-last-bar stamps x row orders) with every row after the cut changed, negated or removed, at every cut including the last bar; a case is non-trivial if the perturbed run completed and differs from the base run somewhere"
+    ctx.rule = "strategies of the run family x cut dates x perturbations (affine rescale, reversal of the future rows, column rotation; thorough: every single future cell of the 6-date tables) applied to every supplied table after the cut; transaction / RFQ tables (bar, intraday and after-the-last-bar stamps x row orders) with every row after the cut changed, negated or removed, at every cut including the last bar; target-weight / signal tables stamped between intraday bars and close / roll dates on week-ends, entries after the cut changed, moved or removed; a case is non-trivial if the perturbed run completed and differs from the base run somewhere"
     ctx.assumptions += [
         "perturbations change values only, never the index (end-of-period schedulers look at the next date label by design)",
         "a perturbed data set on which the strategy raises a documented guard is not well formed and is skipped",
@@ -275,6 +381,13 @@ def run(ctx):
             nt += differ
             for v in viols:
                 ctx.violation(dict(v, build=kind, module=MOD, case={"kind": "blotter", "item": list(item), "where": v.get("where")}))
+        evs = [(k, p) for k in ("target_intraday", "where_intraday", "close_between", "roll_between") for p in ("change", "drop")]
+        for item, (status, viols, n, differ) in ctx.run(kind, MOD, "events_case", evs, chunksize=1):
+            ctx.add(states=1, transitions=n + 1, traces_validated_against_impl=n + 1, evaluations=n)
+            tot += n
+            nt += differ
+            for v in viols:
+                ctx.violation(dict(v, build=kind, module=MOD, case={"kind": "events", "item": list(item), "where": v.get("where")}))
         ctx.nontrivial_count += nt
         ctx.extra.setdefault("pairs", []).append({"build": kind, "strategies": len(use), "perturbed_runs_compared": tot, "of_which_differ_after_the_cut": nt})
         if tot and nt < 0.3 * tot:
